@@ -23,6 +23,7 @@ def opCost : Op → Nat
   | .finalise => 10
   | .pull => 1
   | .clear => 1
+  | .reject => 1
 
 def progCost (p : List Op) : Nat := (p.map opCost).sum
 
@@ -281,6 +282,7 @@ theorem mu_CStep {s t : CState} (h : CStep s t) : mu t < mu s := by
     apply fin (clearF s).1 _ none _ rest hpc hprog fr.prog fr.writers fr.writable
     have := clearF_chunkLen s
     simp only [opCost]; omega
+  | reject rest hpc hprog => exact fin s _ none _ rest hpc hprog rfl rfl rfl (by simp [opCost])
   | send ch wr hpc hch hsend =>
     obtain ⟨hb, _, _⟩ := Chan.send_buf hsend
     simp only [mu, hpc, callerPot, chunkElems, hb, bufElems_append, hch, List.map_append, List.sum_append]
